@@ -208,6 +208,8 @@ fn main() {
     let next = Arc::new(AtomicUsize::new(0));
     let results: Arc<Mutex<Vec<(usize, Stats)>>> = Arc::new(Mutex::new(vec![]));
     let scratch = Scratch::new("vfreezer");
+    let confirmed: Arc<Mutex<std::collections::HashSet<String>>> =
+        Arc::new(Mutex::new(Default::default()));
 
     // panics of the code under test are caught and reported as violations; keep stderr quiet
     std::panic::set_hook(Box::new(|_| {}));
@@ -225,6 +227,7 @@ fn main() {
             crash: scratch.join(&format!("w{t}/crash")),
         };
         let crumb = crumbs.as_ref().map(|c| c.join(format!("w{t}")));
+        let confirmed = confirmed.clone();
         handles.push(
             std::thread::Builder::new()
                 .name(format!("vfz-{t}"))
@@ -249,31 +252,69 @@ fn main() {
                             };
                             let _ = std::fs::write(c, label);
                         }
-                        let mut st = Stats::default();
-                        let r =
-                            std::panic::catch_unwind(std::panic::AssertUnwindSafe(|| match &job {
-                                Job::Directed(k) => {
-                                    files_engine::run_directed(&fcfg, &directed[*k], &dirs, &mut st)
+                        let run_job = || {
+                            let mut st = Stats::default();
+                            let r = std::panic::catch_unwind(std::panic::AssertUnwindSafe(
+                                || match &job {
+                                    Job::Directed(k) => files_engine::run_directed(
+                                        &fcfg,
+                                        &directed[*k],
+                                        &dirs,
+                                        &mut st,
+                                    ),
+                                    Job::Files(k) => {
+                                        files_engine::run_random(&fcfg, *k, &dirs, &mut st)
+                                    }
+                                    Job::Freezer(k) => {
+                                        freezer_engine::run_random(&zcfg, *k, &dirs, &mut st)
+                                    }
+                                },
+                            ));
+                            if let Err(p) = r {
+                                let (lvl, k) = match &job {
+                                    Job::Directed(k) => (files_engine::LVL, *k as u64),
+                                    Job::Files(k) => (files_engine::LVL, *k),
+                                    Job::Freezer(k) => (freezer_engine::LVL, *k),
+                                };
+                                st.violation(
+                                    &format!("{lvl}.history.panic"),
+                                    format!(
+                                        "panic during a crash-free history: {}",
+                                        panic_msg(&p)
+                                    ),
+                                    (u64::MAX, 0),
+                                    || json!({"level": lvl, "job": k}),
+                                );
+                            }
+                            st
+                        };
+                        let mut st = run_job();
+                        // Jobs are deterministic. A violation with a signature that has not been
+                        // reproduced yet in this run only counts if it shows up again when the
+                        // job is re-run (another process wiping /dev/shm scratch directories
+                        // mid-run would otherwise look like data loss).
+                        let needs_confirmation = {
+                            let c = confirmed.lock().unwrap();
+                            st.viols.iter().any(|v| !c.contains(&v.sig))
+                        };
+                        if needs_confirmation {
+                            st.count("jobs_rerun_to_confirm_violation");
+                            let again = run_job();
+                            let mut c = confirmed.lock().unwrap();
+                            let mut kept = vec![];
+                            for v in std::mem::take(&mut st.viols) {
+                                if c.contains(&v.sig) || again.viols.iter().any(|x| x.sig == v.sig)
+                                {
+                                    c.insert(v.sig.clone());
+                                    kept.push(v);
+                                } else {
+                                    st.harness_error(format!(
+                                        "violation {} did not reproduce when its job was re-run (scratch directory disturbed by another process?)",
+                                        v.sig
+                                    ));
                                 }
-                                Job::Files(k) => {
-                                    files_engine::run_random(&fcfg, *k, &dirs, &mut st)
-                                }
-                                Job::Freezer(k) => {
-                                    freezer_engine::run_random(&zcfg, *k, &dirs, &mut st)
-                                }
-                            }));
-                        if let Err(p) = r {
-                            let (lvl, k) = match &job {
-                                Job::Directed(k) => (files_engine::LVL, *k as u64),
-                                Job::Files(k) => (files_engine::LVL, *k),
-                                Job::Freezer(k) => (freezer_engine::LVL, *k),
-                            };
-                            st.violation(
-                                &format!("{lvl}.history.panic"),
-                                format!("panic during a crash-free history: {}", panic_msg(&p)),
-                                (u64::MAX, 0),
-                                || json!({"level": lvl, "job": k}),
-                            );
+                            }
+                            st.viols = kept;
                         }
                         st.count("jobs_done");
                         results.lock().unwrap().push((i, st));
